@@ -63,7 +63,9 @@ type ChunkReader struct {
 	chunkHash      hash.Hash
 	checksumHash   hash.Hash
 	isEOF          bool
-	isFirstHeader  bool
+	// finished is set once the final chunk has been read and verified
+	finished      bool
+	isFirstHeader bool
 	//TODO: Add debug logging for the reader
 	debug  bool
 	region string
@@ -102,6 +104,16 @@ func NewSignedChunkReader(r io.Reader, authdata AuthData, region, secret string,
 
 // Read satisfies the io.Reader for this type
 func (cr *ChunkReader) Read(p []byte) (int, error) {
+	n, err := cr.read(p)
+	if (err == nil || err == io.EOF) && cr.isEOF && !cr.finished {
+		// the stream ended before the final (zero length) chunk:
+		// a truncated upload must not be taken for a complete one
+		return n, errInvalidChunkFormat
+	}
+	return n, err
+}
+
+func (cr *ChunkReader) read(p []byte) (int, error) {
 	n, err := cr.r.Read(p)
 	if err != nil && err != io.EOF {
 		return 0, err
@@ -262,6 +274,7 @@ func (cr *ChunkReader) parseAndRemoveChunkInfo(p []byte) (int, error) {
 			}
 		}
 
+		cr.finished = true
 		return 0, io.EOF
 	}
 
